@@ -83,4 +83,16 @@ theorem dot_zero_of_parallel (g n e : V3 ℝ) (hc : V3.cross g n = V3.zero) (hn 
   linear_combination (-(g.x * e.x + g.y * e.y + g.z * e.z)) * hn + (g.x * n.x + g.y * n.y + g.z * n.z) * he
     - (n.y * e.z - n.z * e.y) * c1 - (n.z * e.x - n.x * e.z) * c2 - (n.x * e.y - n.y * e.x) * c3
 
+theorem zipWith_replicate_l {β γ δ : Type} (f : β → γ → δ) (r : β) (ds : List γ) :
+    List.zipWith f (List.replicate ds.length r) ds = ds.map (f r) := by
+  induction ds with
+  | nil => rfl
+  | cons d ds ih => simp [List.replicate_succ, ih]
+
+theorem zipWith_replicate_r {β γ δ : Type} (f : β → γ → δ) (d : γ) (rs : List β) :
+    List.zipWith f rs (List.replicate rs.length d) = rs.map (fun r => f r d) := by
+  induction rs with
+  | nil => rfl
+  | cons r rs ih => simp [List.replicate_succ, ih]
+
 end Midgard.Geo
